@@ -1,6 +1,7 @@
 /- Line-protocol handler for the cache model and spec (C16). -/
 import Lcapy.Model.Cache
 import Lcapy.Model.CacheAux
+import Lcapy.Model.SymReg
 import Lcapy.Spec.Cache
 import Lcapy.Generated.Caches
 namespace Lcapy.Driver.C16
@@ -181,6 +182,23 @@ def obsStr (w : World) (i : Nat) : String :=
     let j (l : List String) := if l.isEmpty then "-" else ",".intercalate l
     s!"elts={j names} counts={j counts} degs={j degs} unconn={j unconn} dang={j dang} rd={j rd} memo={j memo} lru={j lru} n={w.insts.length}"
 
+/-! ### symbol registry / context machine -/
+
+def symCfg : SymReg.Cfg := ⟨Gen.Caches.deleteCleansKinds, Gen.Caches.addRestoresContextOnError⟩
+
+def parseSymOp (toks : List String) : Option SymReg.Op :=
+  match toks with
+  | ["declare", n, a] => some (.declare n a)
+  | ["use", n, a] => some (.use n a)
+  | ["delete", n] => some (.delete n)
+  | ["add", c, ns, ok] => some (.add c.toNat! ((ns.splitOn ",").filter (· ≠ "-")) (ok = "ok"))
+  | ["enter", c] => some (.enter c.toNat!)
+  | ["leave"] => some .leave
+  | _ => none
+
+def parseSymOps (toks : List String) : Option (List SymReg.Op) :=
+  ((splitAt ";" toks).filter (· ≠ [])).mapM parseSymOp
+
 def handle (toks : List String) : Option String :=
   match toks with
   | "c16.trace" :: rest => some <|
@@ -200,6 +218,22 @@ def handle (toks : List String) : Option String :=
       let unc := (cfg.memoised.filter (fun p => !cfg.isCleared p.1)).map (·.1)
       let j (l : List String) := if l.isEmpty then "-" else ",".intercalate l
       s!"uncleared={j unc} removesel={if cfg.removeSel = .all then "all" else "slice"} damages={cfg.damages.length} faildetach={cfg.failedAddDetaches} errinv={cfg.addInvalidatesOnError} add={cfg.addInvalidates} addmulti={cfg.addMultiInvalidates} remove={cfg.removeInvalidates} init={cfg.initInvalidates} detach={cfg.overrideDetaches} hashsites={Gen.Caches.hashOrderSites.length} full={cfgOKb cfg (fun _ => true) && cfg.overrideDetaches} partial={cfgOKb cfg (Gexcl cfg knownUncleared)}"
+  | "c16.sym" :: rest => some <|
+      match parseSymOps rest with
+      | none => "bad-op"
+      | some ops =>
+        let st := SymReg.run symCfg SymReg.St.init ops
+        let ans := SymReg.answers symCfg SymReg.St.init ops
+        s!"ans={if ans.isEmpty then "-" else ",".intercalate ans} cur={st.cur} depth={st.stack.length}"
+  | "c16.symfresh" :: n :: a :: rest => some <|
+      match parseSymOps rest with
+      | none => "bad-op"
+      | some ops => toString (SymReg.freshLike symCfg ops n a)
+  | "c16.symstable" :: ns :: rest => some <|
+      match parseSymOps rest with
+      | none => "bad-op"
+      | some ops => toString (SymReg.stableOver ops ((ns.splitOn ",").filter (· ≠ "-")))
+  | ["c16.symcfg"] => some s!"deleteCleansKinds={symCfg.deleteCleansKinds} restoreOnError={symCfg.restoreOnError} share={Gen.Caches.contextsShareSymbols}"
   | "c16.line" :: rest => some <|
       match parseLine rest with
       | .ok e => s!"ok {e.kind} {",".intercalate e.nodes}"
